@@ -211,6 +211,8 @@ func ruleLITTYPE(c *Ctx, r *Report) {
 				r.bad(rule, key, pos, "a word containing * or ? must become a Wild leaf")
 			case strings.HasSuffix(argKey, "#0") && strings.Contains(argKey, "ParseFloat") && !contains(seq, "int"):
 				r.bad(rule, key, pos, "a float literal is produced without first trying to type the word as an int")
+			case isCall && len(call.Call.Args) > 0 && !strings.Contains(argKey, "$0.Val"):
+				r.bad(rule, key+"|invented", pos, fmt.Sprintf("a bare word becomes a leaf whose payload (%s) is not derived from the token text: the value in the tree, in the SQL and in the parameter list is not what was written (a word spelled like a keyword of some other notation is replaced by a constant)", argKey))
 			case numericReadingIgnored(p.Atoms, argKey) != "":
 				r.bad(rule, key+"|ignored", pos, fmt.Sprintf("on this path %s, yet the leaf carries %s: a word that reads as a number is typed as something else, so it is quoted in SQL and compared as text", numericReadingIgnored(p.Atoms, argKey), argKey))
 			case len(ops) == 1 && ops[0] == "expr.Wild" && pathHasWildcard(c, p.Atoms):
